@@ -16,7 +16,8 @@ R06.2  z / o: consumes exactly 0 / 1 elements on every non-aborting input; n: sa
 R06.3  u: satisfied => exactly 1;  d: some signature-free input leaves 0
 R06.4  s: every success checked a signature;  f (no dissatisfaction): no signature-free input leaves 0
 R06.5  composition: canonical satisfactions / dissatisfactions of accepted fragments leave non-zero / zero
-R06.6  the public cast constructors Type::cast_* give the labels type_check gives (shared with C08 R08.3)"""
+R06.6  the public cast constructors Type::cast_* give the labels type_check gives (shared with C08 R08.3)
+R06.7  the contexts admit exactly the fragments / key kinds that can execute under their script rules (shared with C12)"""
 
 import itertools
 import os
@@ -202,6 +203,12 @@ def run(chk):
     from ..report import RuleAlias
     chk.guard("R06.6", "casts", c08.check_casts, RuleAlias(chk, {"R08.3": "R06.6"}, "the wrapper labels produced by "
               "Type::cast_* are the ones type_check assigns (and R06.1-R06.5 judge)"), F)
+    # R06.7: a fragment is only typed within a context (from_ast runs the context's per-node check): the context must
+    # admit exactly the fragments whose opcodes and key kinds exist under its script rules, otherwise a fragment that
+    # aborts on every stack (CHECKMULTISIG in tapscript, CHECKSIGADD before it) gets a type (rule shared with C12)
+    from . import c12
+    chk.guard("R06.7", "context-tables", c12.check_context_tables, RuleAlias(chk, {"R12.2c": "R06.7"}, "per-context node checks "
+              "admit exactly the fragments and key kinds that can execute under the context's script rules"), F)
     chk.extra["R06_typed_fragments"] = typed
     chk.extra["R06_executions"] = runs
     chk.floor("R06.1", "well-typed fragments", typed, 800)
